@@ -8,7 +8,8 @@ from datetime import date, datetime, timedelta, timezone
 from fractions import Fraction
 
 sys.path.insert(0, os.path.dirname(os.path.abspath(__file__)))
-from lib import Check, guarded, zlit, blit, listlit   # noqa: E402
+from lib import Check, REPO, guarded, zlit, blit, listlit   # noqa: E402
+import gen_coll                                                  # noqa: E402  (tools/: translator tie for the filters)
 
 import logging                                                  # noqa: E402
 logging.disable(logging.CRITICAL)
@@ -574,6 +575,8 @@ def gen_case(rng):
 def main():
     ck = Check('C18')
     ck.build_theories(['theories/Props/C18.vo', 'theories/Corr/FilterK.vo'])
+    rep = gen_coll.main(REPO, os.path.join(ck.rundir, 'CollGen.v'))      # the filters regenerated from collections.py ...
+    ck.gen('CollGen.v', rep, 'CollGenEq.v')                              # ... proved equal to FilterM for all arguments
     ck.props('Props/C18.v')
     rng = ck.rng
     quick = ck.tier == 'quick'
